@@ -74,7 +74,7 @@ def stage1(impl, srcs):
     lines, classes = [], []
     for h, o in zip(hx, outs):
         parts = o.split(" ", 2)
-        if len(parts) != 3 or not parts[0].isdigit() or parts[2][:2] not in ("P ", "F "):
+        if len(parts) != 3 or not parts[0].isdigit() or parts[2][:1] not in ("P", "F"):
             raise MachineryError(f"c14_dump failed on {unhexs(h)!r}: {o[:200]}")
         lines.append(f"{h} {parts[0]} {parts[2]}")
         classes.append(parts[1])
